@@ -210,6 +210,21 @@ claim(
     "DESIGN.md §2 C02",
 )
 
+claim(
+    "C05",
+    "constant folding of the column type tables (incl. the cross-module import-time update); Column keyword "
+    "vocabulary comparison; must-pass-through of ensure_has_primary_key on def-use chains; guard-fact "
+    "dominance and arm exclusivity of the primary-key stores; return-path funnel of the parsers",
+    "Decides necessary parts: the type tables are mutually inverse on {int, float, str, bool, dict}; every "
+    "Column keyword the emitters can write is read and removed by column_call_to_param; every column-emission "
+    "site iterates ensure_has_primary_key(...).items() (at least one PK); each store introducing a PK marker "
+    "is dominated by the absence test and the stores are mutually exclusive (at most one more than the input "
+    "had); the hybrid and class parsers return exactly the table parser's result on the class-to-table "
+    "normal form, so the three variants cannot disagree on parsing.",
+    "NOT decided: round-trip equality for all column lists (names, order, defaults, descriptions) — value level.",
+    "DESIGN.md §2 C05",
+)
+
 
 def main():
     """write MANIFEST.json"""
